@@ -236,6 +236,7 @@ theorem fact_slink : Generated.surnameLinkUsesIndexLetter = true := by decide
 theorem fact_escapes : Generated.sourceKeyEscapesFixed = true := by decide
 theorem fact_avoid : Generated.keysAvoidReserved = true := by decide
 theorem fact_skip : Generated.keysSkipHidden = true := by decide
+theorem fact_identity : Generated.pageIndividualByIdentity = true := by decide
 theorem fact_fixed_names : fixedNames = fixedKeys.map (· ++ html) := by decide +kernel
 theorem fact_fixed_nodup : fixedNames.Nodup := by decide +kernel
 theorem fact_fixed_head : ∀ k ∈ fixedKeys, k.head? ≠ some 95 ∧ k ≠ [] := by decide +kernel
@@ -243,7 +244,9 @@ theorem fact_fixed_head : ∀ k ∈ fixedKeys, k.head? ≠ some 95 ∧ k ≠ [] 
 /-- the facts the naming theorems rest on, regenerated from the code on every run: key bytes are
     safe file-name bytes; the source pointer encoding is total (256 entries), per byte, each entry
     the byte itself or its `_xx` escape, all safe; the fixed names are `key.html`, pairwise distinct
-    and do not start with `_`; the five behavioural flags of the repaired code are on -/
+    and do not start with `_`; the six behavioural flags of the repaired code are on (the last one: `PageIndividual` finds
+    the record itself, so the model may index individuals by position even when records share a
+    pointer) -/
 theorem naming_facts :
     (∀ b ∈ Generated.keyKeep, safeByte b = true)
     ∧ tableOk Generated.sourceKeyByte = true
@@ -255,9 +258,10 @@ theorem naming_facts :
     ∧ Generated.surnameLinkUsesIndexLetter = true
     ∧ Generated.sourceKeyEscapesFixed = true
     ∧ Generated.keysAvoidReserved = true
-    ∧ Generated.keysSkipHidden = true :=
+    ∧ Generated.keysSkipHidden = true
+    ∧ Generated.pageIndividualByIdentity = true :=
   ⟨fact_keep_safe, fact_table_ok, by decide, fact_table_safe, fact_suffix, fact_fixed_names,
-   fact_fixed_nodup, fact_keyed, fact_slink, fact_escapes, fact_avoid, fact_skip⟩
+   fact_fixed_nodup, fact_keyed, fact_slink, fact_escapes, fact_avoid, fact_skip, fact_identity⟩
 
 theorem keep_dash : ∀ b ∈ Generated.keyDash, keep b = true := by decide
 theorem keep_fold : ∀ e ∈ Generated.lowerFold, keep e.2 = true := by decide
@@ -1128,6 +1132,14 @@ example : individualKeysV [bs!"Ann Smith", bs!"Ann Smith", bs!"Bob"] [true, fals
     ∧ pageIndividualV [bs!"Ann Smith", bs!"Ann Smith"] [true, false] [] 1 = bs!"ann-smith.html"
     ∧ pageIndividualV [bs!"Ann Smith", bs!"Ann Smith"] [true, false] [] 0 = bs!"#"
     ∧ pageIndividualV [bs!"Ann Smith", bs!"Ann Smith"] [false, false] [] 1 = bs!"ann-smith-1.html" := by
+  decide +kernel
+
+/-- records that share a pointer: the model has no pointers at all — an individual is its position
+    in the document (what `PageIndividual` does since it looks the record itself up), so three
+    records `@I1@` with different or equal names keep their own keys -/
+example : individualKeysV [bs!"Ann Smith", bs!"Bob Jones", bs!"Ann Smith"] [false, false, false] []
+    = [some bs!"ann-smith", some bs!"bob-jones", some bs!"ann-smith-1"]
+    ∧ pageIndividualV [bs!"Ann Smith", bs!"Bob Jones", bs!"Ann Smith"] [false, false, false] [] 2 = bs!"ann-smith-1.html" := by
   decide +kernel
 
 end Gedcom.C19
